@@ -117,23 +117,56 @@ def check(run, prog, tier):
                     out.add((bid, s))
         return out
 
+    import loops as _loops
+    do_loops = _loops.natural_loops(do)
+
+    def step_blocks(pred, depth=2):
+        """blocks of destruct_object that perform a step: the header of a loop whose body contains a node satisfying pred
+        (passing the loop is doing the step, however often its body runs), a straight-line block containing one, or a call
+        of a function (helpers, two levels) that contains one"""
+        def holders(d):
+            out = set()
+            for g in prog.functions():
+                if g is do:
+                    continue
+                if any(pred(n) for b, i, n in g.nodes()):
+                    out.add(g.name)
+            for _ in range(d - 1):
+                more = {g.name for g in prog.functions() if g is not do and g.static and any(c.get("fn") in out for b, i, c in g.calls())}
+                out |= more
+            return out
+        hs = holders(depth)
+        hit = {b.id for b, i, n in do.nodes() if pred(n) or (n.get("k") == "Call" and n.get("fn") in hs and n.get("fn") != do.name)}
+        out = []
+        for bid in sorted(hit, reverse=True):
+            # enclosing loops that do not contain the final store; a block that leaves a loop (found it: unlink, break) belongs to it
+            heads = [h for h, body in do_loops if fb.id not in body and (bid in body or (do.dominates(h, bid) and do.blocks[bid].preds and all(p in body for p in do.blocks[bid].preds)))]
+            out.append(max(heads) if heads else bid)
+        return sorted(set(out), reverse=True)
+
+    def is_asg(n):
+        return n.get("k") == "Asg" and n.get("op") == "="
+
+    def unlink_of(field, head=None):
+        def pred(n):
+            if not is_asg(n):
+                return False
+            r, l = strip(n["R"]), strip(n["L"])
+            if not (r.get("k") == "Mem" and r.get("f") == field):
+                return False
+            return (l.get("k") == "Un" and l.get("op") == "*") or (l.get("k") == "Mem" and l.get("f") in (field, "contains")) or (l.get("k") == "Ref" and l.get("n") == head)
+        return pred
+
     steps = [
         ("stack-scrub", calls_of("remove_object_from_stack", obname), set()),
         ("name-hash", calls_of("remove_object_hash", obname), set()),
-        ("obj-list", [bid for bid in do.reachable() if do.branch_cond(bid) is not None and show(strip(do.branch_cond(bid))) in ("*pp", "*pp != ob")
-                      and any(n.get("k") == "Asg" and "next_all" in show(n["R"]) for b2, i2, n in do.nodes() if b2.id in cfgq.reach_set(do, [bid], avoid_blocks=[fb.id]))], set()),
+        ("obj-list", step_blocks(unlink_of("next_all", "obj_list")), set()),
         ("living-name", calls_of("remove_living_name", obname), false_edges(lambda e: show(e) == obname + "->living_name")),
-        ("sentences", (calls_of("free_sentence") and
-                       [bid for bid in do.reachable() if do.branch_cond(bid) is not None and show(strip(do.branch_cond(bid))) == obname + "->sent"
-                        and do.blocks[bid].succ[0] is not None and set(calls_of("free_sentence")) & cfgq.reach_set(do, [do.blocks[bid].succ[0]], avoid_blocks=[fb.id])]), set()),
-        ("input-to", stores(lambda n: show(strip(n["L"])).endswith("->input_to") and const_val(n["R"]) == 0) and
-         [bid for bid in do.reachable() if do.branch_cond(bid) is not None and "max_users" in show(do.branch_cond(bid))], false_edges(lambda e: e.get("n") == "all_users")),
+        ("sentences", step_blocks(lambda n: n.get("k") == "Call" and n.get("fn") == "free_sentence", depth=1), false_edges(lambda e: show(e) == obname + "->sent")),
+        ("input-to", step_blocks(lambda n: is_asg(n) and strip(n["L"]).get("k") == "Mem" and strip(n["L"]).get("f") == "input_to" and const_val(n["R"]) == 0), false_edges(lambda e: e.get("n") == "all_users")),
         ("heart-beat", calls_of("set_heart_beat", obname), set()),
         ("destruct-list", stores(lambda n: strip(n["L"]).get("n") == "obj_list_destruct" and show(strip(n["R"])) == obname), set()),
-        ("inventory-unlink", stores(lambda n: "next_inv" in show(n["R"]) and strip(n["L"]).get("k") == "Un") and
-         [bid for bid in do.reachable() if do.branch_cond(bid) is not None and show(strip(do.branch_cond(bid))) == "*pp" and
-          any("next_inv" in show(n2["R"]) for b2, i2, n2 in do.nodes() if n2.get("k") == "Asg" and b2.id in cfgq.reach_set(do, [bid], avoid_blocks=[fb.id]) and strip(n2["L"]).get("k") == "Un")][:1],
-         false_edges(lambda e: show(e) == obname + "->super")),
+        ("inventory-unlink", step_blocks(unlink_of("next_inv")), false_edges(lambda e: show(e) == obname + "->super")),
     ]
     for name, blocks, bypass in steps:
         if not blocks:
